@@ -16,7 +16,7 @@ from aiortc.exceptions import InvalidStateError
 from aiortc.mediastreams import MediaStreamError
 from vt.enumcheck import Tally, pmap, result
 from vt.loop import HarnessError
-from vt.pcworld import PcWorld, PendingTrack
+from vt.pcworld import PcWorld, PendingTrack, PacketTrack, sync_threads, encoded_frames
 
 PID = "C19"
 HORIZON_S = 30.0
@@ -35,7 +35,18 @@ SHAPES = {
     "video-both": (["video"], False, ["video"], False, "balanced"),
     # the data channel is created BEFORE the first track: with max-bundle every m-line then shares the SCTP transport's DTLS
     "dc-first-bundle": (["audio"], True, ["audio"], False, "max-bundle", "dc-first"),
+    # kinds marked * produce real media: encoded Opus / VP8 packets every 20 / 40 ms of virtual time flow through the real
+    # sender, SRTP, router, jitter buffer and the real decoder threads (synchronised with the stepping) to a consumer
+    "audio-media": (["audio*"], False, ["audio*"], False, "balanced"),
+    "av-media+dc": (["audio*", "video*"], True, ["audio*"], False, "max-bundle"),
+    # the same with the script's pauses five times shorter (0.7 s of media): the quick tier's media shape
+    "av-media+dc-short": (["audio*", "video*"], True, ["audio*"], False, "max-bundle"),
 }
+MEDIA_SHAPES = ("audio-media", "av-media+dc", "av-media+dc-short")
+
+
+def make_track(kind):
+    return PacketTrack(kind[:-1]) if kind.endswith("*") else PendingTrack(kind)
 BUNDLE = {"balanced": RTCBundlePolicy.BALANCED, "max-compat": RTCBundlePolicy.MAX_COMPAT, "max-bundle": RTCBundlePolicy.MAX_BUNDLE}
 
 
@@ -45,8 +56,12 @@ class Life:
     def __init__(self, shape):
         omedia, odc, amedia, adc, bundle = SHAPES[shape][:5]
         dc_first = len(SHAPES[shape]) > 5
+        self.pace = 0.2 if shape.endswith("-short") else 1.0
+        self.media = shape in MEDIA_SHAPES
+        if self.media:
+            encoded_frames("audio"), encoded_frames("video")    # (creating an encoder draws from `random`: before the seed)
         random.seed(12345)
-        self.w = PcWorld(real_decoder_thread=True)
+        self.w = PcWorld(real_decoder_thread="sync" if self.media else True)
         self.loop = self.w.loop
         cfg = lambda: RTCConfiguration(iceServers=[], bundlePolicy=BUNDLE[bundle])
         self.pc = {"A": self.w.pc(cfg()), "B": self.w.pc(cfg())}
@@ -54,6 +69,7 @@ class Life:
         self.channels = {"A": [], "B": []}
         self.tracks = {"A": [], "B": []}
         self.consumers = []
+        self.frames = {}                         # side -> decoded frames handed to the application
         self.closed_at = {}                      # side -> index into emitted[side] when its close() completed
         for side in "AB":
             self._spy(self.pc[side], side, "pc")
@@ -62,9 +78,9 @@ class Life:
         if odc and dc_first:
             self._channel("A", self.pc["A"].createDataChannel("a-chat"))
         for kind in omedia:
-            self.pc["A"].addTrack(PendingTrack(kind))
+            self.pc["A"].addTrack(make_track(kind))
         for kind in amedia:
-            self.pc["B"].addTrack(PendingTrack(kind))
+            self.pc["B"].addTrack(make_track(kind))
         if odc and not dc_first:
             self._channel("A", self.pc["A"].createDataChannel("a-chat"))
         if adc:
@@ -94,6 +110,7 @@ class Life:
             try:
                 while True:
                     await track.recv()
+                    self.frames[side] = self.frames.get(side, 0) + 1
             except MediaStreamError:
                 pass
         t = self.loop.create_task(consume())
@@ -107,19 +124,19 @@ class Life:
             await b.setRemoteDescription(a.localDescription)
             await b.setLocalDescription(await b.createAnswer())
             await a.setRemoteDescription(b.localDescription)
-            await asyncio.sleep(1.2)
+            await asyncio.sleep(1.2 * self.pace)
             for ch in self.channels["A"]:
                 if ch.readyState == "open":
                     ch.send("hello")
-            await asyncio.sleep(1.5)
+            await asyncio.sleep(1.5 * self.pace)
             for ch in self.channels["A"]:
                 if ch.readyState == "open":
                     ch.send(b"x" * 3000)
-            await asyncio.sleep(0.5)
+            await asyncio.sleep(0.5 * self.pace)
             # the application closes a channel itself: while the stream reset is in progress the channel is "closing"
             for ch in self.channels["A"][:1]:
                 ch.close()
-            await asyncio.sleep(0.3)
+            await asyncio.sleep(0.3 * self.pace)
         except (InvalidStateError, ConnectionError):
             pass                    # a negotiation call that lost the race against close()
         except Exception as e:      # other failures of the racing call are recorded, the oracle is about close()
@@ -128,9 +145,10 @@ class Life:
     # ---- stepping
     def step(self):
         """One callback, or - when none is ready - the next timer. Returns False when nothing is left."""
-        if self.loop.step():
-            return True
-        return self.loop.fire_one_timer()
+        r = self.loop.step() or self.loop.fire_one_timer()
+        if self.media:
+            sync_threads()
+        return r
 
     def teardown(self):
         try:
@@ -317,7 +335,7 @@ def task(args):
 
 
 def run(tier, seed):
-    shapes = list(SHAPES) if tier == "thorough" else ["av+dc", "dc-only", "audio-only", "a+dc-bundle", "dc-first-bundle"]
+    shapes = [x for x in SHAPES if x != "av-media+dc-short"] if tier == "thorough" else ["av+dc", "dc-only", "audio-only", "a+dc-bundle", "dc-first-bundle", "av-media+dc-short"]
     tasks = []
     lengths = {}
     for shape in shapes:
@@ -333,15 +351,17 @@ def run(tier, seed):
     return result(
         PID, total,
         rule="for each connection shape (%s) a scripted life (create tracks/data channels, offer/answer, connect with real DTLS and "
-             "SCTP over fake ICE, data messages, RTCP timers, the application closing one channel itself) is stepped one event-loop callback at a time; for EVERY cut index 0..N "
+             "SCTP over fake ICE, data messages, RTCP timers, the application closing one channel itself; in the *-media shapes encoded Opus / VP8 "
+             "packets flow every 20 / 40 ms through sender, SRTP, router, jitter buffer and the real decoder threads to a consumer) is stepped one event-loop callback at a time; for EVERY cut index 0..N "
              "(N = %s callbacks) and every closer in {A, B, both at once, A twice concurrently, A after its peer vanished} the run is "
              "replayed to the cut, close() is started and the default policy continues; oracle: close() completes within 30 virtual "
              "seconds, a second close() is a no-op, signaling/ICE/connection state closed, every data channel closed, received tracks "
              "ended and their consumers released, no event emitted after completion, no task of the connection pending once both "
              "sides are closed, no decoder thread alive, no task died with an exception. distinct = (shape, closer, cut)" % (
                  ", ".join(shapes), lengths),
-        assumptions=["aioice replaced by a fake connection; tracks produce no media (no encoder executor threads, excluded by the "
-                     "property); real decoder threads", "set iteration order over transports is address dependent: a cut index may map "
+        assumptions=["aioice replaced by a fake connection; tracks produce no media or already encoded packets (no encoder executor threads, excluded by the "
+                     "property); real decoder threads, in the media shapes synchronised with the stepping (the loop waits until "
+                     "the worker is idle after every callback)", "set iteration order over transports is address dependent: a cut index may map "
                      "to a slightly different instant in another process"],
         extra=dict(life_lengths=lengths))
 
